@@ -77,4 +77,18 @@ def fmtBits (bs : List Bool) : String := String.ofList (bs.map (fun b => if b th
 def fmtPix (ps : List (Pt × Nat)) : String :=
   joinOr ";" (ps.map (fun (p, c) => s!"{p.x},{p.y},{c}"))
 
+/-- Row-major order on points, as a Boolean (for sorting). -/
+def ptLe (a b : Pt) : Bool := a.y < b.y || (a.y == b.y && a.x ≤ b.x)
+
+/-- keep the last element of every run of equal keys -/
+def lastOfRuns : List (Pt × Nat) → List (Pt × Nat)
+  | [] => []
+  | [a] => [a]
+  | a :: b :: rest => if a.1 == b.1 then lastOfRuns (b :: rest) else a :: lastOfRuns (b :: rest)
+
+/-- Canonical pixel map of a write sequence: last write wins, sorted row-major
+(same text as `fmt_map` of the harness's `PMap`). -/
+def canonPix (writes : List (Pt × Nat)) : List (Pt × Nat) :=
+  lastOfRuns (writes.mergeSort (fun a b => ptLe a.1 b.1))
+
 end EG.Driver
